@@ -97,6 +97,43 @@ def check_strand(chk) -> None:
     chk.expect(ok, "stem-result", sf.where, "Stem(5' strand, 3' strand) over the same dot-bracket", "Stem is not built from (strand5p_entries, strand3p_entries) with the given dot-bracket", K(sf, "result"))
 
 
+def _returned_by(repo, expr: ast.AST):
+    """For `self.<name>` / `self.<name>()` where <name> is a property or method of BpSeq: the normalised texts of everything it may
+    return (locals inlined, conditional expressions split, `.structure` distributed); None if expr is not such an access."""
+    from sa.defuse import Inliner
+
+    e = expr.func if isinstance(expr, ast.Call) and not expr.args else expr
+    if not (isinstance(e, ast.Attribute) and isinstance(e.value, ast.Name) and e.value.id == "self"):
+        return None
+    name = e.attr
+    if name in ("dot_bracket", "fcfs", "entries"):
+        return None
+    if not repo.has_func(MOD, f"BpSeq.{name}"):
+        return None
+    fn = repo.func(MOD, f"BpSeq.{name}").node
+    inl = Inliner(fn)
+    out = []
+
+    def split(x: ast.AST):
+        if isinstance(x, ast.IfExp):
+            return split(x.body) + split(x.orelse)
+        if isinstance(x, ast.BoolOp):
+            r = []
+            for v in x.values:
+                r += split(v)
+            return r
+        if isinstance(x, ast.Attribute):
+            return [ast.Attribute(value=b, attr=x.attr, ctx=ast.Load()) for b in split(x.value)] if isinstance(x.value, (ast.IfExp, ast.BoolOp)) else [x]
+        return [x]
+
+    for r in ast.walk(fn):
+        if isinstance(r, ast.Return) and r.value is not None:
+            v = inl.inline(r.value, r)
+            for part in split(v):
+                out.append(norm(ast.fix_missing_locations(part)))
+    return out or None
+
+
 def check_elements(chk) -> None:
     repo = chk.repo
     fi = repo.func(MOD, "BpSeq.elements")
@@ -114,6 +151,15 @@ def check_elements(chk) -> None:
             continue
         db = inl.inline(db, fm.stmt_of(c))
         t = norm(db)
+        # a property / method of the class that hands out the text: read what it returns
+        srcs = _returned_by(repo, db)
+        if srcs is not None:
+            wrong = [x for x in srcs if x != "self.dot_bracket.structure"]
+            if wrong:
+                chk.violation("elements-dotbracket", fi.site(c), f"`{t[:60]}` may return `{wrong[0][:90]}`: not the structure's own dot-bracket (self.dot_bracket.structure), strand structure text differs from the reported notation", K(fi, f"dotbracket:{norm(c)[:50]}"), found=srcs)
+            else:
+                chk.ok("elements-dotbracket", fi.site(c), f"strand text is sliced from self.dot_bracket.structure (through `{t[:40]}`)")
+            continue
         if t == "self.dot_bracket.structure":
             chk.ok("elements-dotbracket", fi.site(c), "strand text is sliced from self.dot_bracket.structure")
         elif t.startswith("self.") and t != "self.dot_bracket.structure" and (t.endswith(".structure") or "fcfs" in t or "__dict__" in t):
@@ -121,6 +167,14 @@ def check_elements(chk) -> None:
         else:
             chk.error("elements-dotbracket", fi.site(c), f"dot-bracket argument `{t[:90]}` not resolved")
     chk.floor("elements-dotbracket", 5)
+    # fact-level rules first (checks/c07e.py); the pinned-form rules below are only the fallback when the code cannot be read at fact level
+    from checks import c07e
+
+    why = c07e.check(chk, fi)
+    if why is None:
+        check_walk_and_result(chk, fi)
+        return
+    chk.ok("elements-facts", fi.where, f"fact-level reading not possible ({why[:120]}); falling back to the pinned forms")
     # stems + stops
     sl = [l for l in fi.node.body if isinstance(l, ast.For) and norm(l.iter).endswith("__stems_entries")]
     ok = False
@@ -190,6 +244,14 @@ def check_elements(chk) -> None:
         ok = inner is not None and flat(inner.test) in (flat("not all([strand.last - strand.first <= 1 for strand in loop])"), flat("not all(strand.last - strand.first <= 1 for strand in loop)"), flat("any(strand.last - strand.first > 1 for strand in loop)"))
         ok = ok and [flat(s) for s in inner.body] == [flat("loops.append(Loop(loop))"), flat("used.update(loop)")]
     chk.expect(ok, "elements-closure", fi.where, "a walk is a loop iff the first strand's first nucleotide pairs with the last strand's last; it is recorded in walk order", "loop closure/record is not `entries[loop[0].first - 1].pair == loop[-1].last` -> loops.append(Loop(loop)) in walk order", K(fi, "closure"))
+    # leftovers
+    lo = [l for l in fi.node.body if isinstance(l, ast.For) and norm(l.iter) == "loop_candidates"]
+    ok = len(lo) == 1 and len(lo[0].body) == 1 and isinstance(lo[0].body[0], ast.If) and flat(lo[0].body[0].test) == flat(f"{norm(lo[0].target)} not in used") and [flat(s) for s in lo[0].body[0].body] == [flat(f"single_strands.append(SingleStrand({norm(lo[0].target)}, False, False))")]
+    chk.expect(ok, "elements-leftover", fi.where, "loop candidates that are in no loop become single strands", "loop candidates not used by a loop are not all reported as SingleStrand(candidate, False, False)", K(fi, "leftover"))
+    check_walk_and_result(chk, fi)
+
+
+def check_walk_and_result(chk, fi) -> None:
     # walk: follows one unused successor at a time
     walks = [w for w in ast.walk(fi.node) if isinstance(w, ast.While) and norm(w.test) == "True"]
     ok = False
@@ -201,10 +263,6 @@ def check_elements(chk) -> None:
             j = norm(f0.target)
             ok = len(f0.body) == 1 and isinstance(f0.body[0], ast.If) and flat(f0.body[0].test) == flat(f"loop_candidates[{j}] not in used and loop_candidates[{j}] not in loop") and [flat(s) for s in f0.body[0].body] == [flat(f"loop.append(loop_candidates[{j}])"), flat(f"i = {j}"), "break"]
     chk.expect(ok, "elements-walk", fi.where, "the walk appends one unused successor at a time and stops when there is none", "the loop walk is not `follow the first unused successor not yet in the loop until none is left`", K(fi, "walk"))
-    # leftovers
-    lo = [l for l in fi.node.body if isinstance(l, ast.For) and norm(l.iter) == "loop_candidates"]
-    ok = len(lo) == 1 and len(lo[0].body) == 1 and isinstance(lo[0].body[0], ast.If) and flat(lo[0].body[0].test) == flat(f"{norm(lo[0].target)} not in used") and [flat(s) for s in lo[0].body[0].body] == [flat(f"single_strands.append(SingleStrand({norm(lo[0].target)}, False, False))")]
-    chk.expect(ok, "elements-leftover", fi.where, "loop candidates that are in no loop become single strands", "loop candidates not used by a loop are not all reported as SingleStrand(candidate, False, False)", K(fi, "leftover"))
     rets = [r for r in fi.node.body if isinstance(r, ast.Return)]
     chk.expect(len(rets) == 1 and flat(rets[0].value) == "stems,single_strands,hairpins,loops", "elements-result", fi.where, "returns (stems, single_strands, hairpins, loops)", "does not return (stems, single_strands, hairpins, loops)", K(fi, "result"))
 
@@ -234,6 +292,8 @@ def run(chk) -> None:
     chk.trusted = ["CPython ast", "seed table of which fields are 1-based (sa/indexkinds.py, confirmed by reading)"]
     chk.assumptions = ["valid BPSEQ", "correctness of the loop-linking walk on knotted multiloops and the exactly-once coverage as a whole are not decided (DESIGN.md C07 residual)"]
     chk.robust |= {"index-discipline", "stems-run", "stems-filter", "region-triple", "elements-dotbracket"}
+    # fact-level rules of checks/c07e.py decide the same behaviour on rewritten code; the pinned forms are reading aids there
+    chk.robust |= {"elements-prelude-fact", "elements-stops-fact", "elements-windows-fact", "elements-tails-fact", "elements-links-fact", "elements-closure-fact"}
     check_discipline(chk)
     check_strand(chk)
     check_elements(chk)
